@@ -25,6 +25,14 @@ RELOC = {
 }
 
 
+LAST_EXTRA = {
+    "rel-lbra": (" LBRA T\n", "rel"), "rel-bsr": (" BSR T\n", "rel"), "rel-leay-pcr": (" LEAY T,PCR\n", "rel"), "rel-jmp-pcr-ind": (" JMP [T,PCR]\n", "rel"),
+    "idx-auto": (" LDA ,X+\n", "const"), "idx-ofs16": (" LDD 300,Y\n", "const"), "direct": (" STA <$20\n", "const"), "inh": (" RTS\n", "const"),
+    "imm16": (" LDX #$1234\n", "const"), "fcb": (" FCB 1,2\n", "const"), "fcc": (" FCC /AB/\n", "const"), "rmb": (" RMB 5\n", "const"),
+    "pshs": (" PSHS A,B\n", "const"), "tfr": (" TFR X,Y\n", "const"),
+}
+
+
 class Meta:
     name = "meta"
     props = ("C18",)
@@ -41,6 +49,11 @@ class Meta:
             out.append({"id": "layout/%s" % p, "k": "layout", "p": p, "bounded": "corpus program %s, whitespace/comment/case variants" % p})
             out.append({"id": "suffix/%s" % p, "k": "suffix", "p": p, "bounded": "corpus program %s, 4 suffixes" % p})
             out.append({"id": "relocate-corpus/%s" % p, "k": "reloc_corpus", "p": p, "bounded": "corpus program %s, 4 origin shifts" % p})
+        # every statement class as the LAST statement of the base program (the statement most exposed to "is there a next one")
+        for k in list(RELOC) + list(LAST_EXTRA):
+            for tgt in ("before", "self"):
+                out.append({"id": "suffix-last/%s/%s" % (k, tgt), "k": "suffix_last", "stmt": k, "tgt": tgt,
+                            "bounded": "base program ending in %s (target %s), 5 suffixes" % (k, tgt)})
         return out
 
     def run(self, env, cell):
@@ -180,6 +193,29 @@ class Meta:
             ok = all(a.address == b.address and a.bytes == b.bytes for a, b in zip(base.stmts, r.stmts[:n])) and \
                 all(r.symbols.get(s) == v for s, v in base.symbols.items())
             env.ensure("C18:suffix-changes-nothing", ok, ("C18",), (lambda k=k: "suffix/%s:%d:prefix-changed" % (cell["p"], k)) if native else None)
+
+    def k_suffix_last(self, env, cell, native):
+        tmpl = (RELOC.get(cell["stmt"]) or LAST_EXTRA[cell["stmt"]])[0]
+        if cell["tgt"] == "before":
+            lines = ["        ORG $3000\n", "T       FCB 1,2,3\n", "START   LDA #1\n", "       " + tmpl]
+        else:
+            lines = ["        ORG $3000\n", "START   LDA #1\n", "T      " + tmpl]
+        base = assemble(env, lines)
+        if base.status != "ok":
+            env.ensure("C18:suffix-changes-nothing", True, ("C18",))
+            return
+        n = len(base.stmts)
+        suffixes = [[" RTS\n"], [" NOP\n", " END START\n"], ["ZZ8 FDB $1234\n"], [" RMB 300\n", "ZZ7 JMP ZZ7\n"], [" ORG $5000\n", " NOP\n"]]
+        for k, sfx in enumerate(suffixes):
+            r = assemble(env, lines + sfx)
+            if r.status != "ok":
+                env.fail("C18:suffix-changes-nothing", ("C18",),
+                         (lambda k=k: "suffix-last/%s/%s:%d:rejected" % (cell["stmt"], cell["tgt"], k)) if native else None)
+                continue
+            ok = all(a.address == b.address and a.bytes == b.bytes for a, b in zip(base.stmts, r.stmts[:n])) and \
+                all(r.symbols.get(s) == v for s, v in base.symbols.items())
+            env.ensure("C18:suffix-changes-nothing", ok, ("C18",),
+                       (lambda k=k: "suffix-last/%s/%s:%d:prefix-changed" % (cell["stmt"], cell["tgt"], k)) if native else None)
 
     def k_reloc_corpus(self, env, cell, native):
         lines = PROGRAMS[cell["p"]]
